@@ -196,6 +196,7 @@ def build(chk):
                              'copulas.utils.get_instance'])
     build_univariate(chk)
     build_wrapper(chk)
+    build_wrapper_refit(chk)
     build_bivariate(chk)
     build_gaussian(chk)
     build_unfitted(chk)
@@ -535,6 +536,45 @@ def build_wrapper(chk):
                  'fit_consumes_randomness'), replay=wrapper_replay)
 
 
+def build_wrapper_refit(chk):
+    """the selecting Univariate fitted a second time on other data: the family is selected again, for the new data.
+    select_univariate enters through its contract (C05): the choice is a function of the data - here an uninterpreted
+    boolean picks between two families"""
+    def run(history):
+        I = engine.new_interp()
+        gm.install_rootfinders(I)
+
+        def select_summary(interp, args, kwargs):
+            w = libmodel._whole(args[0])
+            if State.ctx.branch(ir.uf('sel.prefers_gaussian', [w], 'B')):
+                return uni.new_model(interp, 'GaussianUnivariate')
+            return uni.new_model(interp, 'UniformUnivariate')
+        I.summaries['copulas.univariate.selection.select_univariate'] = select_summary
+
+        def body(c):
+            c.assume(ir.ge(uni.N, 2))
+            c.assume(ir.ge(M, 1))
+            c.assume(ir.gt(ir.uf('n_unique', [uni.XW], 'I'), 1))
+            m = I.call_qual(uni.BASE + 'Univariate', [], {})
+            if history:
+                ny = Sym(ir.var('ny', 'I'))
+                c.assume(ir.ge(ny.t, 2))
+                c.assume(ir.gt(ir.uf('n_unique', [ir.var('y', 'U')], 'I'), 1))
+                I.call_method(m, 'fit', [Lane(ir.var('y@i'), ny)])
+                I.call_method(m, 'cdf', [Lane(ir.var('q0@i'), Sym(M))])
+            I.call_method(m, 'fit', [uni.data_lane()])
+            inst = m.attrs['_instance']
+            obs = observe_uni(I, c, m, 'x')
+            obs['_params'] = inst.attrs.get('_params') if isinstance(inst, Obj) else None
+            obs['selected_class'] = inst.cls.name if isinstance(inst, Obj) else repr(inst)
+            c.out['obs'] = obs
+            return None
+        return engine.run_paths(I, body)[0]
+    compare(chk, 'Univariate_wrapper_refit', uni.BASE + 'Univariate.fit', run(False), run(True),
+            ('selected_class', 'cumulative_distribution', 'percent_point', 'probability_density', 'sample', '_params'),
+            replay=wrapper_replay)
+
+
 def wrapper_replay(env):
     import numpy as np
     import warnings
@@ -556,6 +596,18 @@ def wrapper_replay(env):
         bad.append('two fresh equal Univariate models fitted on the same data differ: %r vs %r' % (outs[0], outs[1]))
     if not np.allclose(outs[0], ref, atol=1e-12):
         bad.append('Univariate (KDE selected) differs from a fresh GaussianKDE fit: %r vs %r' % (outs[0], ref))
+    # a second fit on data of another shape must select again
+    from copulas.univariate import UniformUnivariate
+    Y = rs.normal(0, 1, 400)
+    Z = rs.uniform(2, 5, 400)
+    r = Univariate(candidates=[GaussianUnivariate, UniformUnivariate])
+    r.fit(Y)
+    r.fit(Z)
+    f = Univariate(candidates=[GaussianUnivariate, UniformUnivariate])
+    f.fit(Z)
+    if r.to_dict() != f.to_dict():
+        bad.append('Univariate fitted on normal data and then on uniform data is %s, a fresh model fitted on the uniform data is %s'
+                   % (r.to_dict()['type'].rsplit('.', 1)[-1], f.to_dict()['type'].rsplit('.', 1)[-1]))
     return {'confirmed': bool(bad), 'detail': '; '.join(bad) if bad else 'wrapper fit equals the fresh family fit'}
 
 
